@@ -80,21 +80,28 @@ pub fn predicate_pushdown_rules() -> Vec<Rewrite> { vec![
         "(join ?type (and ?cond1 ?cond2) ?left ?right)" =>
         "(join ?type ?cond2 (filter ?cond1 ?left) ?right)"
         if not_depend_on("?cond1", "?right")
+        // a left-only conjunct of the ON clause restricts *matches*: for left/full outer and anti joins the
+        // left rows that fail it must still be returned, so it cannot become a filter on the left input
+        if join_type_is("?type", &[Expr::Inner, Expr::RightOuter, Expr::Semi])
     ),
     rw!("pushdown-join-condition-left-1";
         "(join ?type ?cond1 ?left ?right)" =>
         "(join ?type true (filter ?cond1 ?left) ?right)"
         if not_depend_on("?cond1", "?right")
+        if join_type_is("?type", &[Expr::Inner, Expr::RightOuter, Expr::Semi])
     ),
     rw!("pushdown-join-condition-right";
         "(join ?type (and ?cond1 ?cond2) ?left ?right)" =>
         "(join ?type ?cond2 ?left (filter ?cond1 ?right))"
         if not_depend_on("?cond1", "?left")
+        // symmetric: not valid when unmatched *right* rows must be returned (right/full outer joins)
+        if join_type_is("?type", &[Expr::Inner, Expr::LeftOuter, Expr::Semi, Expr::Anti])
     ),
     rw!("pushdown-join-condition-right-1";
         "(join ?type ?cond1 ?left ?right)" =>
         "(join ?type true ?left (filter ?cond1 ?right))"
         if not_depend_on("?cond1", "?left")
+        if join_type_is("?type", &[Expr::Inner, Expr::LeftOuter, Expr::Semi, Expr::Anti])
     ),
     rw!("pushdown-filter-apply-left";
         "(filter ?cond (apply ?type ?left ?right))" =>
@@ -472,6 +479,12 @@ fn has_vector_index(
         }
         false
     }
+}
+
+/// Returns true if the join type bound to `ty` is one of `allowed`.
+fn join_type_is(ty: &str, allowed: &'static [Expr]) -> impl Fn(&mut EGraph, Id, &Subst) -> bool {
+    let ty = var(ty);
+    move |egraph, _, subst| egraph[subst[ty]].nodes.iter().any(|n| allowed.contains(n))
 }
 
 /// Returns true if the columns used in `expr` is disjoint from columns produced by `plan`.
